@@ -664,16 +664,23 @@ class C15(Base):
                 cfg["p"]["r"] = rng.randint(1, 3)
                 cfg["p"]["d"] = rng.randint(1, 3)
             tasks.append([cfg, draw_passes(rng, cfg, 2)])
-        if rng.random() < 0.4 and tasks[0][0]["cls"] == tasks[1][0]["cls"]:
+        u = rng.random()
+        if u < 0.35:
+            # exact twins: two equal schedules in two threads
+            import copy
+            tasks[1] = copy.deepcopy(tasks[0])
+        elif u < 0.6 and tasks[0][0]["cls"] == tasks[1][0]["cls"]:
             # same size, other parameters: collisions on shared keys
             tasks[1][0]["N"] = tasks[0][0]["N"]
         seed = rng.getrandbits(48)
-        ops = [["e3", seed, tasks, 0, 0, 0, [0, "ctor", k]]
+        ops = [["e3", seed, tasks, 0, 0, 0,
+                [0, "ctor", k, "one" if k % 2 else "all"]]
                for k in range(1, 21)]
         import math
         for _ in range(8):
+            # the other task's whole life at a drawn line of this one's
             k = int(math.exp(rng.uniform(math.log(20), math.log(6000))))
-            ops.append(["e3", seed, tasks, 0, 0, 0, [0, "any", k]])
+            ops.append(["e3", seed, tasks, 0, 0, 0, [0, "any", k, "all"]])
         return ListDriver(ops)
 
     def plan(self, rng, tier, idx):
@@ -724,6 +731,13 @@ class C15(Base):
                         # in the trajectory only
                         cfg["N"] = pivot_n
                         cfg["p"]["r"], cfg["p"]["d"] = pivot_r, pivot_d
+            elif cfg["cls"] == "TwoLevel" and rng.random() < 0.4:
+                # same period, units and trajectory (other sizes, storages)
+                cfg["p"]["period"] = 1 + pivot_n % 7
+                cfg["p"]["b"] = pivot_r
+                cfg["p"]["traj"] = ("maximum", "revolve")[pivot_d % 2]
+                if rng.random() < 0.5:
+                    cfg["N"] = pivot_n
             elif "uf" in cfg["p"]:
                 u = rng.random()
                 if u < 0.25:
